@@ -222,13 +222,13 @@ func checkDefs() map[string]CheckDef {
 			each("H_C09_shape", l(1, 2, 8, 13), l(1), l(0, 1, 3, 5), l(2)),
 			each("H_C09_shape", l(1, 8), l(2, 3), l(0, 2, 3, 4, 5, 7, 8, 9, 11), l(2)), each("H_C09_shape", l(2, 13), l(2, 3), l(0, 3, 5, 8), l(2)),
 			each("H_C09_shape", l(8), l(2, 3), l(6), l(0)),
-			each("H_C09_shape", l(1, 2, 8, 13), l(0, 1, 2, 3), l(12), l(2)),
+			each("H_C09_shape", l(1, 2, 8, 13), l(0, 1, 2, 3), l(12), l(2)), each("H_C09_shape", l(1, 2, 8, 13), l(0, 1, 2, 3), l(13), l(1, 2)),
 			each("H_C09_list", l(0), l(0, 1, 2, 3), l(1)), each("H_C09_list", l(1), l(0), l(1)),
 			each("H_C09_hdrs", l(1, 2)), each("H_C09_minmax", l(1, 2, 3))),
 		cat(each("H_C09_shape", l(1, 2, 8, 13), l(0), l(0, 1, 2, 3, 4, 5, 7, 8, 9, 10, 11), l(4, 5)),
 			each("H_C09_shape", l(8), l(2, 3), l(1, 10), l(2)), each("H_C09_shape", l(1, 13), l(2, 3), l(0, 2, 3, 4, 5, 7, 8, 11), l(3)),
 			each("H_C09_list", l(0), l(0, 2), l(3)), each("H_C09_hdrs", l(5))),
-		"From/To/Contact/PAI values built from 13 shapes (angle / quoted name / token name / bare URI / expires+q / lr / star / quoted tag / two-token name / escaped quoted name with fold / bare URI with LWS and 3 parameters / expires+tag+valueless / other parameters whose symbolic names have the lengths of q, lr, tag, expires) with class-constrained symbolic components of 2 (4-5) bytes, parameter names in symbolic letter case and symbolic optional LWS (none, SP, HT, fold) at the legal places, directly and through ParseHdrLine (kind of header), also at a non-zero offset and delivered in two pieces (every cut); 3-value lists with commas inside quotes and <> incl. exact spans; min / max expires and counts over two Contact headers + Expires through ParseHeaders with capacities 0..2",
+		"From/To/Contact/PAI values built from 14 shapes (angle / quoted name / token name / bare URI / expires+q / lr / star / quoted tag / two-token name / escaped quoted name with fold / bare URI with LWS and 3 parameters / expires+tag+valueless / other parameters whose symbolic names have the lengths of q, lr, tag, expires / a valueless lr followed by LWS and further parameters, bare and bracketed) with class-constrained symbolic components of 2 (4-5) bytes, parameter names in symbolic letter case and symbolic optional LWS (none, SP, HT, fold) at the legal places, directly and through ParseHdrLine (kind of header), also at a non-zero offset and delivered in two pieces (every cut); 3-value lists with commas inside quotes and <> incl. exact spans; min / max expires and counts over two Contact headers + Expires through ParseHeaders with capacities 0..2",
 		"values outside the shapes; whitespace inside <>; more than 3 values")
 
 	add("C10",
@@ -299,9 +299,9 @@ func checkDefs() map[string]CheckDef {
 	add("C16",
 		cat(each("H_C16_hdr", seq(0, 20)), each("H_C16_mth", seq(0, 10)), each("H_C16_round"), each("H_C16_str"), each("H_C16_parse", seq(1, 8), l(0, 1)), each("H_C16_parse", l(12, 14), l(0)),
 			each("H_C16_parse_at", l(2, 4, 7), l(0, 1, 2), l(1, 9)), each("H_C16_parse", l(3, 6), l(2)),
-			each("H_C16_parse_chunk", l(2, 4, 7), l(0, 1, 2), l(0, 3))),
+			each("H_C16_parse_chunk", l(2, 4, 7), l(0, 1, 2), l(0, 3)), each("H_C16_twice", seq(0, 8))),
 		cat(each("H_C16_parse_at", l(1, 3, 5, 6, 8, 12), l(1, 2), l(3, 4096)), each("H_C16_parse_chunk", l(1, 3, 5, 6, 8, 12), l(1, 2), l(2, 300)), each("H_C16_hdr", seq(21, 24)), each("H_C16_mth", l(11, 12)), each("H_C16_parse", l(19), l(0))),
-		"GetHdrType for every byte string of length 0..20 (24) and GetMethodNo for length 0..10 (12) vs. a linear scan of a literal copy of the table; Name()/String() total; round trip; ParseHdrLine assigns the same classification, also with white space before the colon, with the line at a non-zero offset and delivered in two pieces (every cut)",
+		"GetHdrType for every byte string of length 0..20 (24) and GetMethodNo for length 0..10 (12) vs. a linear scan of a literal copy of the table; Name()/String() total; round trip; ParseHdrLine assigns the same classification, also with white space before the colon, with the line at a non-zero offset and delivered in two pieces (every cut); every occurrence of a twice-occurring header (9 kinds, symbolic letter case) in a block parsed with the value parsers attached",
 		"names longer than 24 bytes (only the length test can matter there)")
 
 	add("C17",
@@ -321,9 +321,9 @@ func checkDefs() map[string]CheckDef {
 
 	add("C19",
 		cat(each("H_C19_insert", l(0, 1), seq(0, 6), l(2)), each("H_C19_insert", l(2), l(1), l(1)), each("H_C19_insert_rot", l(0, 1), l(0, 3, 6), l(2), seq(1, 5)), each("H_C19_cap", seq(0, 7), l(2)),
-			each("H_C19_cap", l(4, 12), l(4)), each("H_C19_chunk", l(2)), each("H_C19_via", l(1, 2, 3)), each("H_C19_strsig", seq(0, 4)), each("H_C19_string", seq(0, 8)), each("H_C19_state", l(1, 2), l(1, 2, 7))),
-		cat(each("H_C19_insert", l(0, 1), seq(0, 6), l(4)), each("H_C19_strsig", l(5)), each("H_C19_cap", l(2, 5), l(6)), each("H_C19_state", l(3), l(2))),
-		"requests built from a 6-header skeleton in 6 rotations (Via first .. Via last): a header with symbolic value inserted at every position + a repeated From appended (signature unchanged); replies; a header with a symbolic 2-4 byte name and capacities 0..7,12 (same signature or ErrHdrTrunc); every single cut; first Via joined / split / extended with the same symbolic branch; message state constructed directly with 1-2 (3) stored headers of every type and form, symbolic insertion point and array cut; string signatures on 0-4 (5) symbolic bytes; String() for every documented-shape signature",
+			each("H_C19_cap", l(4, 12), l(4)), each("H_C19_chunk", l(2)), each("H_C19_via", l(1, 2, 3)), each("H_C19_strsig", seq(0, 4)), each("H_C19_string", seq(0, 8)), each("H_C19_state", l(1, 2), l(1, 2, 7)), each("H_C19_othertags", l(0, 1), l(2, 3))),
+		cat(each("H_C19_insert", l(0, 1), seq(0, 6), l(4)), each("H_C19_othertags", l(0, 1), l(6, 10)), each("H_C19_strsig", l(5)), each("H_C19_cap", l(2, 5), l(6)), each("H_C19_state", l(3), l(2))),
+		"the To tag and a Contact parameter value (2-3 (10) symbolic bytes) do not change the signature, with and without a From tag; requests built from a 6-header skeleton in 6 rotations (Via first .. Via last): a header with symbolic value inserted at every position + a repeated From appended (signature unchanged); replies; a header with a symbolic 2-4 byte name and capacities 0..7,12 (same signature or ErrHdrTrunc); every single cut; first Via joined / split / extended with the same symbolic branch; message state constructed directly with 1-2 (3) stored headers of every type and form, symbolic insertion point and array cut; string signatures on 0-4 (5) symbolic bytes; String() for every documented-shape signature",
 		"header sets other than the skeleton; more than 8 stored headers")
 
 	add("C20",
